@@ -20,8 +20,8 @@ import subprocess
 import sys
 
 ROOT = os.path.dirname(os.path.dirname(os.path.abspath(__file__)))
-OUT = os.path.join(ROOT, 'replay', 'data', 'xpath_corpus.txt')
-DOCS_OUT = os.path.join(ROOT, 'replay', 'data', 'xpath_corpus_docs.txt')
+OUT = os.environ.get('XPATH_CORPUS_OUT') or os.path.join(ROOT, 'replay', 'data', 'xpath_corpus.txt')
+DOCS_OUT = os.environ.get('XPATH_CORPUS_DOCS_OUT') or os.path.join(ROOT, 'replay', 'data', 'xpath_corpus_docs.txt')
 SCRATCH = os.path.join(ROOT, '.scratch', 'xpath_corpus')
 LIBXML2 = '/root/miniconda/lib/libxml2.so.2'
 
@@ -351,11 +351,43 @@ def run_libxml2(doc_text, exprs):
     return out
 
 
+NESTED_OF = {}
+
+
+def chain_exprs(di):
+    """Predicate chains: every later predicate sees the positions and the size of what the earlier ones left (XPath 1.0 2.4 / 3.3),
+    on filter expressions and on steps."""
+    prim = {0: ['(//a)', '(//*)', '(//a | //b)', '(/r/*)', '(//text())', '(//node())', '(//@x/..)'],
+            3: ['(//a)', '(//*)', '(//s | //a)', '(/*/*)', '(//node())'],
+            6: ['(//a)', '(//*)', '(//a | //c)', '(//a//*)', '(/*/*)']}.get(di, [])
+    steps = {0: ['//a', '/r/*', '//*', '//b/ancestor::*', '//a/following-sibling::*', '//c/preceding-sibling::node()', '/r/descendant::node()'],
+             3: ['//a', '/*/*', '//*', '//a/preceding::*'],
+             6: ['//a', '//*', '//a/descendant::*', '//c/ancestor-or-self::*']}.get(di, [])
+    p1 = ['[@x]', '[not(@x)]', '[position()>1]', '[position() mod 2 = 1]', '[a]', '[not(a)]', '[text()]', '[true()]', '[position()<last()]', '[self::a]', '[2]']
+    p2 = ['[last()]', '[1]', '[2]', '[position()=last()]', '[last()-1]', '[position()<last()]', '[last() > 1]', '[last() = 1]', '[position()=1 or position()=last()]']
+    out = []
+    for b in prim + steps:
+        for a in p1:
+            for c in p2:
+                out.append(f'{b}{a}{c}')
+                out.append(f'count({b}{a}{c})')
+                if b in prim:
+                    # the same selection with the first predicate closed off in a primary of its own: by 3.3 `(E)[P1][P2]` filters
+                    # successively, so the two are the same node-set (see NESTED_OF in main)
+                    out.append(f'({b}{a}){c}')
+                    NESTED_OF[f'{b}{a}{c}'] = f'({b}{a}){c}'
+            out.append(f'{b}{a}[position()>1][last()]')
+            out.append(f'{b}[position()>1]{a}[last()]')
+            out.append(f'count({b}{a}[true()][last()])')
+            out.append(f'string(count({b}{a})) = string(count({b}{a}[true()]))')
+    return out
+
+
 def main():
     os.makedirs(SCRATCH, exist_ok=True)
     cases = []
     for di in range(len(DOCS)):
-        ex = exprs_for(di) + CURATED[di]
+        ex = exprs_for(di) + CURATED[di] + chain_exprs(di)
         if di == 0:
             ex += function_exprs() + operator_exprs()
         seen = set()
@@ -375,11 +407,14 @@ def main():
     run_java(docs_file, exprs_file, java_out)
     java = [l.rstrip('\n').split('\t') for l in open(java_out, encoding='utf-8')]
     assert len(java) == len(cases)
+    index_of = {c: i for i, c in enumerate(cases)}
+    lib_by_case = {}
     kept, dropped = [], {'java error': 0, 'libxml2 error': 0, 'disagree': 0, 'string of negative zero': 0}
     samples = []
     for di in range(len(DOCS)):
         idx = [i for i, c in enumerate(cases) if c[0] == di]
         lib = run_libxml2(DOCS[di], [cases[i][1] for i in idx])
+        lib_by_case.update(dict(zip(idx, lib)))
         for i, lres in zip(idx, lib):
             _, _, res, jstr, negzero = java[i]
             if res == 'E' or jstr == 'E':
@@ -388,6 +423,15 @@ def main():
             if lres == 'E':
                 dropped['libxml2 error'] += 1
                 continue
+            if lres != res and cases[i][1] in NESTED_OF:
+                # javax.xml.xpath evaluates last() in a LATER predicate of a filter expression against the size of the unfiltered
+                # set (`(//*)[@x][last()]` is empty there).  XPath 1.0 3.3 defines the chain as successive filtering, i.e. as the
+                # nested form; when both oracles agree on the nested form and libxml2 gives the chain that very value, it is kept.
+                j = index_of.get((di, NESTED_OF[cases[i][1]]))
+                if j is not None and java[j][2] == lres and lib_by_case.get(j) == lres and java[j][2] != 'E':
+                    kept.append((di, cases[i][1], lres))
+                    dropped['kept by the nested form'] = dropped.get('kept by the nested form', 0) + 1
+                    continue
             if lres != res:
                 dropped['disagree'] += 1
                 if len(samples) < 40:
